@@ -200,6 +200,23 @@ class C10Monitor(X.Monitor):
             return
         if _ids(again) != _ids(out):
             ctx.violate("C10", "idempotent", "%s(%s) applied twice changes the result" % (fn, rec["site"]), {}, st.index)
+        # ego-frame objects need no transform: the outcome must not depend on whether transforms are None, empty or the frame's
+        if inputs and all(V.frame_of(o if fn == "filter_objects" else o.estimated_object) == "base_link" for o in inputs) and (
+                fn == "filter_objects" or all(o.ground_truth_object is None or V.frame_of(o.ground_truth_object) == "base_link" for o in inputs)):
+            from perception_eval.common.transform import TransformDict
+
+            for label, tf in (("None", None), ("an empty TransformDict", TransformDict())):
+                b2 = dict(base)
+                b2["transforms"] = tf
+                try:
+                    alt = orig(list(inputs), **b2)
+                except Exception as e:  # noqa
+                    ctx.violate("C10", "kept_exactly", "filtering ego-frame objects with transforms=%s raised %s" % (label, type(e).__name__), {}, st.index)
+                    continue
+                if _ids(alt) != _ids(out):
+                    ctx.violate("C10", "kept_exactly", "filtering ego-frame objects gives another result with transforms=%s (%s, %s)" % (label, fn, rec["site"]),
+                                {"with_frame_transforms": len(out), "alternative": len(alt)}, st.index)
+                ctx.probe("c10_transform_free_probes")
         # widening: every numeric bound relaxed, one at a time and all together
         widen = {
             "max_x_position_list": lambda v: [x * 1.5 + 1.0 for x in v],
